@@ -391,15 +391,15 @@ Example ex_obtain_hyps :
 Proof. exists (map N.of_nat (seq 200 24)), (be 8 32). vm_compute. repeat split. Qed.
 
 (* the whole flow, executed *)
+Definition ex_sg : bytes := sha512 (toy_pk ++ sign_file_dtbs sha512 ex_file toy_pk).
 Example ex_sign_file :
-  exists sg,
-    sign_file sha512 (toy_sign toy_pk) toy_ok ex_file toy_pk = Ok (one_sig_bytes toy_pk sg ++ ex_file) /\
-    lenN sg = 64 /\
-    firstn 19 (one_sig_bytes toy_pk sg) =
-      [131; 72; 240; 159; 150; 139; 240; 159; 147; 166; 68; 49; 98; 0; 0; 129; 130; 161; 112] /\
-    det_check (one_sig_bytes toy_pk sg) = Accept /\
-    lenN (one_sig_bytes toy_pk sg) = 136.
-Proof. eexists. vm_compute. repeat split. Qed.
+  sign_file sha512 (toy_sign toy_pk) toy_ok ex_file toy_pk = Ok (one_sig_bytes toy_pk ex_sg ++ ex_file) /\
+  lenN ex_sg = 64 /\
+  firstn 19 (one_sig_bytes toy_pk ex_sg) =
+    [131; 72; 240; 159; 150; 139; 240; 159; 147; 166; 68; 49; 98; 0; 0; 129; 130; 161; 112] /\
+  det_check (one_sig_bytes toy_pk ex_sg) = Accept /\
+  lenN (one_sig_bytes toy_pk ex_sg) = 135.
+Proof. vm_compute. repeat split. Qed.
 
 (* the strategy signs with another key than the one it reports: refused *)
 Example ex_sign_file_mismatch :
@@ -416,13 +416,12 @@ Definition ex_ops : list (bytes * attrs) :=
    (toy_pk, [(pk_attr_name, toy_pk); (s2b "a", [])])].
 
 Example ex_three_signatures :
-  exists b', sign_all (toy_sign toy_pk) toy_ok (sha512 ex_file) empty_block ex_ops = Ok b' /\
-             map is_attrs (ib_stack b') = rev (map snd ex_ops) /\
-             (exists bs, block_cbor b' = Ok bs /\ det_check bs = Accept).
-Proof.
-  eexists. split; [vm_compute; reflexivity|]. split; [reflexivity|].
-  eexists. vm_compute. split; reflexivity.
-Qed.
+  match sign_all (toy_sign toy_pk) toy_ok (sha512 ex_file) empty_block ex_ops with
+  | Ok b' => map is_attrs (ib_stack b') = rev (map snd ex_ops) /\
+             match block_cbor b' with Ok bs => det_check bs = Accept | _ => False end
+  | _ => False
+  end.
+Proof. vm_compute. split; reflexivity. Qed.
 
 (* the second operation names a key the strategy does not hold: the whole
    sequence stops with an error at that step *)
@@ -432,7 +431,7 @@ Example ex_three_signatures_mismatch :
 Proof. vm_compute. reflexivity. Qed.
 
 Example ex_ops_self : Forall (fun op => In (pk_attr_name, fst op) (snd op)) ex_ops.
-Proof. repeat constructor; cbn [In fst snd]; auto. Qed.
+Proof. unfold ex_ops. repeat (apply Forall_cons || apply Forall_nil); cbn [In fst snd]; auto. Qed.
 
 (* attributes in a different order give the same bytes; a duplicate or a
    non-UTF-8 name is refused *)
